@@ -98,6 +98,13 @@ def gen_overlay(pkg):
         for f in sorted(glob.glob(os.path.join(VERIF, "h", d, "*", "*.go"))):
             sub = os.path.basename(os.path.dirname(f))
             m["%s/verifh/%s/%s/%s" % (REPO, d, sub, os.path.basename(f))] = f
+    # files a check adds to an existing Juno package for its build only (checks.json "inject":
+    # {"<repo-relative path>": "<verif-relative source>"}): exports of unexported pieces for the
+    # monitors. Nothing is written under /repo.
+    for chk in CHECKS.values():
+        if chk.get("pkg") == pkg:
+            for dst, src in (chk.get("inject") or {}).items():
+                m[os.path.join(REPO, dst)] = os.path.join(VERIF, src)
     # optional mutation drill: VERIF_MUTATE="<repo-relative file>=<replacement file>,..."
     mut = os.environ.get("VERIF_MUTATE", "")
     for item in filter(None, mut.split(",")):
